@@ -232,6 +232,8 @@ package tracker
 //@   ensures #empty len(result.Voters[0]) == 0 && result.Voters[0] != nil && result.Voters[1] == nil && result.Learners == nil && result.LearnersNext == nil && !result.AutoLeave
 //@        && len(result.Progress) == 0 && result.Progress != nil && len(result.Votes) == 0 && result.Votes != nil
 //@        && result.MaxInflight == maxInflight && result.MaxInflightBytes == maxBytes
+//@   ensures #no-keys (forall id uint64 :: !has(result.Progress, id)) && (forall id uint64 :: !has(result.Votes, id)) && (forall id uint64 :: !has(result.Voters[0], id))
+//@        && fresh(result.Progress) && fresh(result.Votes) && fresh(result.Voters[0])
 
 //@ -- Visit calls f(id, p.Progress[id]) for every key of p.Progress in ascending id order (see DESIGN §2.2 "iterates").
 //@ func tracker.ProgressTracker.Visit [C19]
